@@ -19,7 +19,7 @@ def _wrappers(cy: CyProgram):
         raise AnalysisError("_line_dist vanished")
     # canonical role of every _line_dist parameter, from its declared type (and
     # order among parameters of the same type) - not from its name
-    ROLE = {("int", 0): "n_time", ("int", 1): "dim", ("float", 0): "eps",
+    ROLE = {("int", 0): "n_time", ("int", 1): "dim", ("real", 0): "eps",
             ("bint", 0): "black", ("bint", 1): "missing_values", ("bint", 2): "skip_main",
             ("NODE_t1", 0): "hist", ("LAG_t2", 0): "R", ("DFIELD_t2", 0): "E",
             ("MASK_t1", 0): "M", ("metric_type", 0): "metric",
@@ -28,6 +28,8 @@ def _wrappers(cy: CyProgram):
     pnames = []
     for a, t in core.args:
         k = t.name + (str(t.ndim) if t.kind in ("buffer", "memview") else "")
+        if k in ("float", "double", "FIELD_t", "DFIELD_t"):
+            k = "real"          # the threshold, at whatever precision
         i = seen.get(k, 0)
         seen[k] = i + 1
         if (k, i) not in ROLE:
@@ -257,6 +259,96 @@ def l7(run: Run, prog: Program):
                     f"missing samples are counted)")
 
 
+def l8(run: Run, cy: CyProgram):
+    """Index roles in _line_dist: the outer loop variable numbers *lines*
+    (columns or diagonals), the inner one positions within a line; the sample
+    indices of a cell are (I, j) with I = ij2I(i, j, N).  The mask, the matrix and
+    the embedding are indexed by samples, so every subscript of them must be I or
+    the inner loop variable - never the line number itself."""
+    f = cy.modules[TS].funcs["_line_dist"]
+    outer = [s for s in f.body if s.k == "for" and s.a[0].k == "name"]
+    if len(outer) != 1:
+        raise AnalysisError(f"{f.where}: outer scan loop of _line_dist not found")
+    line_var = outer[0].a[0].a[0]
+    inner = [s for s in outer[0].a[2] if s.k == "for" and s.a[0].k == "name"]
+    if len(inner) != 1:
+        raise AnalysisError(f"{f.where}: inner scan loop of _line_dist not found")
+    pos_var = inner[0].a[0].a[0]
+    fp = {n for n, t in f.args if t.kind == "simple" and t.name == "line_type_ij2I"}
+    sample = {pos_var}
+    for s in walk(f.body):
+        if isinstance(s, X) and s.k == "assign" and s.a[1].k == "call" and \
+                pp(s.a[1].a[0]) in fp:
+            for t in s.a[0]:
+                if t.k == "name":
+                    sample.add(t.a[0])
+    arrays = {n for n, t in f.args if t.kind in ("buffer", "memview")
+              and t.name in ("MASK_t", "LAG_t", "DFIELD_t")}
+    metric = {n for n, t in f.args if t.kind == "simple" and t.name == "metric_type"}
+    n = 0
+    for s in walk(f.body):
+        idx = None
+        if isinstance(s, X) and s.k == "index" and s.a[0].k == "name" and \
+                s.a[0].a[0] in arrays:
+            idx, what = s.a[1], pp(s)
+        elif isinstance(s, X) and s.k == "call" and pp(s.a[0]) in metric:
+            idx, what = s.a[1][:2], pp(s)
+        if idx is None:
+            continue
+        n += 1
+        bad = [pp(i) for i in idx if not (i.k == "name" and i.a[0] in sample)]
+        run.oblige("L8", f"_line_dist:{what}", not bad, sample={
+            "where": f"{f.module.relpath}:{s.line}", "sample_indices": sorted(sample)})
+        if bad:
+            run.add("L8", f"_line_dist/index-role/{pp(s.a[0])}", f"{f.module.relpath}:{s.line}",
+                    f"_line_dist indexes `{what}` with {bad}; only the sample indices "
+                    f"{sorted(sample)} address samples - `{line_var}` numbers lines "
+                    f"(for diagonal lines it is the diagonal, not a sample), so the "
+                    f"wrong samples are consulted")
+    run.floor("L8 sample subscripts", n, 3)
+
+
+def l9(run: Run, cy: CyProgram):
+    """Both storage modes decide `distance < threshold` at the same precision:
+    the matrix mode compares float64 distances with the Python float threshold;
+    the sequential mode recomputes the distance inside _line_dist, so neither the
+    distance local nor the threshold parameter of _line_dist / its sequential
+    wrappers may be narrower than the metric's result."""
+    from .precision import narrowing_report, float_widths
+    mod = cy.modules[TS]
+    W = float_widths(cy.types)
+    n = 0
+    for f in sorted(mod.funcs.values(), key=lambda f: f.name):
+        if f.name != "_line_dist" and not (f.name.endswith(("_sequential",
+                                                             "_sequential_missingvalues"))
+                                           and "line_dist" in f.name):
+            continue
+        rep, ncmp = narrowing_report(mod, f, W)
+        # wrappers only forward eps: their parameter must be as wide as the core's
+        n += 1
+        if f.name != "_line_dist":
+            core = mod.funcs["_line_dist"]
+            cw = max([W.get(t.name, 0) for a, t in core.args if t.kind == "simple"
+                      and t.name in W] or [0])
+            for a, t in f.args:
+                if t.kind == "simple" and t.name in W:
+                    ebuf = max([W.get(t2.name, 0) for _, t2 in f.args
+                                if t2.kind in ("buffer", "memview")] or [0])
+                    if W[t.name] < ebuf:
+                        rep.append((a, (W[t.name], "parameter", t.name), ebuf,
+                                    "forwarded next to", f.line))
+        run.oblige("L9", f"{f.name}:precision", not rep, sample={"where": f.where})
+        for (name, (w, kind, tname), wo, how, line) in rep:
+            run.add("L9", f"{f.name}/narrow/{kind}", f"{mod.relpath}:{line}",
+                    f"{f.name}: the {kind} `{name}` is declared {tname} ({w * 8} bit) but "
+                    f"is {how} a {wo * 8}-bit floating value: the sequential mode "
+                    f"decides `distance < threshold` in single precision while the "
+                    f"matrix mode decides it in double precision, so the two modes "
+                    f"return different histograms for thresholds that float32 cannot "
+                    f"represent")
+    run.floor("L9 kernels", n, 5)
+
+
 def l4(run: Run, cy: CyProgram):
     """Scan flags of _line_dist are reset unconditionally per outer iteration."""
     f = cy.modules[TS].funcs["_line_dist"]
@@ -339,6 +431,11 @@ def check(run: Run, prog: Program, cy: CyProgram, sites):
     run.rule("L3", "the cache key of the cached histograms contains every flag the "
              "dispatch branches on")
     run.rule("L4", "per-row scan flags of _line_dist are reset unconditionally")
+    run.rule("L8", "_line_dist addresses mask, matrix and embedding only with sample "
+             "indices (I = ij2I(i, j, N) and the inner loop variable)")
+    run.rule("L9", "the sequential mode compares distances and threshold at the "
+             "precision of the matrix mode (no float32 narrowing in _line_dist and "
+             "its sequential wrappers)")
     run.rule("L7", "the three histogram methods consult the same mode flags (storage "
              "mode, missing-value handling) before choosing a kernel")
     run.rule("L5", "derived RQA measures read the histograms only")
@@ -355,6 +452,8 @@ def check(run: Run, prog: Program, cy: CyProgram, sites):
     l3(run, prog)
     l4(run, cy)
     l7(run, prog)
+    l8(run, cy)
+    l9(run, cy)
     l5(run, prog)
     from .rules_c06 import p1_restricted
     run.rule("L6", "the memoised histograms are never edited in place")
